@@ -253,7 +253,16 @@ fn remove_anonymous_from_statement(
             }
             Ok((build_log_call(meta, args), Vec::new()))
         }
-        Statement::Assert { meta, arg } => Ok((build_assert(meta, arg), Vec::new())),
+        Statement::Assert { meta, arg } => {
+            if arg.contains_anonymous_component(None) {
+                Err(AnonymousComponentError::boxed_report(
+                    &meta,
+                    "An anonymous component cannot be used inside an assert statement.",
+                ))
+            } else {
+                Ok((build_assert(meta, arg), Vec::new()))
+            }
+        }
         Statement::Return { meta, value: arg } => {
             if arg.contains_anonymous_component(None) {
                 Err(AnonymousComponentError::boxed_report(
@@ -717,7 +726,13 @@ fn remove_tuples_from_statement(stmt: Statement) -> Result<Statement, Box<Report
             }
             Ok(build_log_call(meta, new_args))
         }
-        Statement::Assert { meta, arg } => Ok(build_assert(meta, arg)),
+        Statement::Assert { meta, arg } => {
+            if arg.contains_tuple(None) {
+                Err(TupleError::boxed_report(&meta, "Tuples cannot be used in assert statements."))
+            } else {
+                Ok(build_assert(meta, arg))
+            }
+        }
         Statement::Return { meta, value } => {
             if value.contains_tuple(None) {
                 Err(TupleError::boxed_report(&meta, "Tuple cannot be used in return values."))
